@@ -19,9 +19,17 @@ def correspondence(ctx):
     quick = ctx.tier == 'quick'
     seed = ctx.rng.randrange(1, 10 ** 5)
 
+    dropped = []
+
     def load_and_run():
+        import contextlib
+        import io
         _spec.loader.exec_module(mod)
-        return mod.cases(seed, 16 if quick else 200)
+        buf = io.StringIO()
+        with contextlib.redirect_stdout(buf):      # the tool prints one DROPPED line per case it cannot use
+            out = mod.cases(seed, 16 if quick else 200)
+        dropped.extend(l for l in buf.getvalue().splitlines() if l.startswith('DROPPED'))
+        return out
     cs = common.safe_cases(ctx, NAME, load_and_run)
     if cs is None:
         return
@@ -51,6 +59,13 @@ def correspondence(ctx):
                     ctx.violation('c12:write-fails:partition-offset-beyond-padded-image', 'C12: %s (case %s)' % (note[:200], c['label']), rep)
                 else:
                     ctx.violation('c12:reopen:write-after-edit-failed', 'C12: %s (case %s)' % (note[:240], c['label']), rep)
+    # images pycdlib cannot open for a reason outside the hybrid parser: the backup GPT was written over the volume tail
+    for l in dropped:
+        if l.startswith('DROPPED(tail-overwritten)'):
+            ctx.violation('c12:gpt-backup-overwrites-volume-tail', 'C12: the written hybrid image cannot be opened again (%s)' % l[:260], {'line': l[:400]})
+        else:
+            ctx.violation('c12:reopen:open-failed-outside-the-hybrid-parser', 'C12/C02: pycdlib cannot open the hybrid image it wrote (%s)' % l[:260], {'line': l[:400]})
+    ctx.count('hybridparse:dropped-unopenable-for-another-reason', len(dropped))
     ctx.count('hybridparse:cases', len(cs))
     ctx.count('hybridparse:reopened-as-hybrid', nhyb)
     ctx.count('hybridparse:rewrite-identical', nsame)
